@@ -41,7 +41,7 @@ pub open spec fn won(s: &ConcatenationProofSigner, msg: Seq<u8>, sigma: &BlsSign
 
 impl ConcatenationProofSigner {
     //@extract file=mithril-stm/src/proof_system/concatenation/signer.rs fn=check_lottery
-    //@ rewrite /let mut indices = Vec::new\(\);/ => /let mut indices: Vec<u64> = Vec::new();/
+    //@ rewrite? /let mut indices = Vec::(new\(\)|with_capacity\([^)]*\));/ => /let mut indices: Vec<u64> = Vec::\1;/
     //@ spec ensures
     //@ spec     forall|k: int| 0 <= k < ret@.len() ==> (#[trigger] ret@[k]) < self.parameters.m && won(self, message_with_commitment@, sigma, ret@[k]),
     //@ spec     forall|i: u64| i < self.parameters.m && won(self, message_with_commitment@, sigma, i) ==> ret@.contains(i),
